@@ -54,6 +54,31 @@ class Value:
         self.v = v
 
 
+ARMED_LEAF_STATES: list = []  # leaf-fault states currently armed (so harness-side rendering can stand aside)
+
+
+class quiet_faults:
+    """Harness-side rendering (normalising Term objects found in a parameter list) must not be hit by the op-level
+    faults of the read it belongs to: disarm faulty leaves and lift a lowered recursion limit for its duration."""
+
+    def __enter__(self):
+        import sys
+        self.lim = sys.getrecursionlimit()
+        if self.lim < 3000:
+            sys.setrecursionlimit(3000 + self.lim)
+        self.states = [(st, st.armed) for st in ARMED_LEAF_STATES]
+        for st, _ in self.states:
+            st.armed = False
+        return self
+
+    def __exit__(self, *a):
+        import sys
+        for st, was in self.states:
+            st.armed = was
+        sys.setrecursionlimit(self.lim)
+        return False
+
+
 class FaultyLeafState:
     def __init__(self):
         self.armed = False
